@@ -199,8 +199,13 @@ class World(BaseWorld):
             if rng.random() < 0.3:
                 # an attacker already holds some steps: labels depend on the graph only
                 comp = [i for i in range(n) if rng.random() < 0.3]
-            return {'op': 'analyse', 'mat': rng.choice(['hand', 'hand', 'dict']),
-                    'perm': perm, 'eperm': eperm, 'pre_eval': pre, 'compromised': comp}
+            op = {'op': 'analyse', 'mat': rng.choice(['hand', 'hand', 'dict']),
+                  'perm': perm, 'eperm': eperm, 'pre_eval': pre, 'compromised': comp}
+            if op['mat'] == 'hand' and n >= 2 and rng.random() < 0.25:
+                # the graph grows: the first k nodes are analysed on their own, the labels
+                # are put back to their defaults, the other nodes are added, then the analysis
+                op['staged'] = rng.randint(1, n - 1)
+            return op
         nassets = sum(1 for o in self.desc['model_ops'] if o['op'] == 'add_asset')
         perm = list(range(nassets))
         if self.nmat:
@@ -289,20 +294,33 @@ class World(BaseWorld):
         perm = [i for i in op['perm'] if i < n] + [i for i in range(n) if i not in op['perm']]
         g = self.AttackGraph()
         nodes = {}
-        for i in perm:
-            h = f'n{i}'
-            node = self._mk_node(ref.nodes[h])
-            g.add_node(node, node_id=i)
-            nodes[h] = node
         ne = len(ref.edges)
         eperm = [i for i in op.get('eperm', []) if i < ne] + \
                 [i for i in range(ne) if i not in op.get('eperm', [])]
-        for i in eperm:
-            p, c = ref.edges[i]
-            nodes[p].children.append(nodes[c])
-        for i in reversed(eperm):
-            p, c = ref.edges[i]
-            nodes[c].parents.append(nodes[p])
+        stages = [perm]
+        if op.get('staged') and 0 < op['staged'] < n:
+            stages = [perm[:op['staged']], perm[op['staged']:]]
+        linked = set()
+        for k, stage in enumerate(stages):
+            for i in stage:
+                h = f'n{i}'
+                node = self._mk_node(ref.nodes[h])
+                g.add_node(node, node_id=i)
+                nodes[h] = node
+            todo = [i for i in eperm if i not in linked
+                    and ref.edges[i][0] in nodes and ref.edges[i][1] in nodes]
+            for i in todo:
+                p, c = ref.edges[i]
+                nodes[p].children.append(nodes[c])
+            for i in reversed(todo):
+                p, c = ref.edges[i]
+                nodes[c].parents.append(nodes[p])
+            linked.update(todo)
+            if k + 1 < len(stages):
+                call(self.apriori.calculate_viability_and_necessity, g)
+                for node in g.nodes:
+                    node.is_viable = node.is_necessary = True
+                self.count('probe:analysed_before_the_graph_was_complete')
         rev = {id(v): k for k, v in nodes.items()}
         return g, lambda node: rev[id(node)]
 
